@@ -52,6 +52,10 @@ type c20Case struct {
 	// read-execute loop (runTerminal in main.go) runs on its other end, with a
 	// real engine session behind it. What the table holds afterwards is compared.
 	PTY bool `json:"pty,omitempty"`
+
+	// lfSplit (filled by stream()): tokens into which the typist put a line
+	// feed, between the last two runes
+	lfSplit map[[2]int]bool
 }
 
 // typed renders token t as keystrokes, with corrections drawn from *x (xorshift state; 0 = none).
@@ -139,6 +143,7 @@ func (s *simTTY) Write(p []byte) (int, error) { return len(p), nil }
 
 func (c *c20Case) stream() (data []byte, ends []int) {
 	var sb strings.Builder
+	c.lfSplit = map[[2]int]bool{}
 	paste := c.Mode == "paste"
 	edit := c.EditSeed
 	if paste {
@@ -148,7 +153,22 @@ func (c *c20Case) stream() (data []byte, ends []int) {
 		if paste {
 			sb.WriteString("\x1b[200~")
 		}
+		if c.MidEnter && edit != 0 && i > 0 && strings.HasSuffix(c.After[i-1], "\r") && (edit>>12)%5 == 0 {
+			// the typist recalls the last statement, thinks better of it, clears
+			// the line (Home, ^K) and presses Enter on the empty line: nothing is
+			// handed over, and nothing of it may linger
+			sb.WriteString([]string{"\x1b[A", "\x10"}[int(edit>>16)%2])
+			sb.WriteString("\x01\x0b\r")
+		}
 		for j, t := range toks {
+			if strings.Contains(t, "\r") {
+				// a raw string typed over two lines is typed plainly: Enter always
+				// takes the whole line, so a correction that presses it with the
+				// cursor inside the line would not give the text that is meant
+				sb.WriteString(t)
+				sb.WriteString(c.Sep[i][j])
+				continue
+			}
 			if edit != 0 && strings.HasPrefix(c.Sep[i][j], "\r") && j+1 < len(toks) {
 				// second thoughts after Enter: the typist first ended the line with
 				// something else, pressed Enter, then erased back across the line
@@ -173,6 +193,13 @@ func (c *c20Case) stream() (data []byte, ends []int) {
 				sb.WriteRune(rs[n-1])
 				sb.WriteString([]string{"\x1b[D", "\x02"}[int(edit>>24)%2])
 				sb.WriteRune(rs[n-2])
+				if (edit>>28)%3 == 0 && !strings.HasPrefix(t, "//") && !strings.HasPrefix(t, "/*") && !strings.ContainsAny(t, "'\"`") {
+					// ^J there - a line feed between the last two runes of the word,
+					// which are two words now -, then Enter: one more line break, at
+					// the end of the line
+					sb.WriteString("\n")
+					c.lfSplit[[2]int{i, j}] = true
+				}
 				edit ^= edit << 13
 				edit ^= edit >> 7
 				edit ^= edit << 17
@@ -295,7 +322,11 @@ func (c *c20Case) expected() []string {
 			pos += 6
 		}
 		for j, t := range toks {
-			sb.WriteString(t)
+			if rs := []rune(t); c.lfSplit[[2]int{i, j}] && len(rs) >= 2 {
+				sb.WriteString(string(rs[:len(rs)-1]) + "\n" + string(rs[len(rs)-1:]))
+			} else {
+				sb.WriteString(strings.ReplaceAll(t, "\r", "\n"))
+			}
 			if strings.ContainsAny(c.Sep[i][j], "\r\n") {
 				sb.WriteString("\n") // ends a // comment
 			} else if c.Sep[i][j] != "" {
@@ -690,7 +721,15 @@ func genC20(seed uint64, thorough bool) *c20Case {
 		case 0:
 			return "/*" + strings.ReplaceAll(remark(), "*/", "") + "*/", false
 		case 1:
-			return "`" + strings.ReplaceAll(remark(), "`", "") + "`", false
+			body := strings.ReplaceAll(remark(), "`", "")
+			if r.Chance(0.3) {
+				// a raw string typed over two lines: "\r" in a token is the Enter key
+				// and stands for a line break of the literal
+				br := []rune(body)
+				k := r.Intn(len(br) + 1)
+				body = string(br[:k]) + "\r" + string(br[k:])
+			}
+			return "`" + body + "`", false
 		default:
 			return "// " + strings.TrimRight(strings.ReplaceAll(remark(), "\\", ""), " "), true
 		}
